@@ -325,8 +325,11 @@ func (t *TableInstance) Grow(delta uint32, initialRef Reference) (currentLen uin
 		return
 	}
 
+	// Growth beyond MaximumFunctionIndex elements fails like any other resource limit: it is the bound
+	// the decoder already applies to a declared minimum, and without it a guest could make the host
+	// allocate 32 GiB with one table.grow on a table that has no maximum.
 	if newLen := int64(currentLen) + int64(delta); // adding as 64bit ints to avoid overflow.
-	newLen >= math.MaxUint32 || (t.Max != nil && newLen > int64(*t.Max)) {
+	newLen >= math.MaxUint32 || newLen > int64(MaximumFunctionIndex) || (t.Max != nil && newLen > int64(*t.Max)) {
 		return 0xffffffff // = -1 in signed 32-bit integer.
 	}
 
